@@ -293,6 +293,19 @@ class Gen:
             else:
                 op = self.pick(["+", "-"])
         l, r = self.expr(ty, d - 1), self.expr(ty, d - 1)
+        if op == "*" and self.chance(0.35):
+            # small literal multiplier (the compiler rewrites these to repeated addition); the other
+            # operand is sometimes a block with an effect, which must happen exactly once
+            small = Lit(ty, self.rng.randint(0, ty.bits - 1))
+            other = r
+            muts = self.vars_of(lambda t, m: m and isinstance(t, TInt))
+            if muts and self.chance(0.5):
+                # `{ counter += 1; value }`: a non-idempotent effect, visible if it happens more than once
+                n, t, _ = self.pick(muts)
+                other = Block([Assign(n, t, [], Lit(t, 1), "+")], r)
+            elif self.chance(0.3) and self.vars_of(lambda t, m: m):
+                other = self.block(ty, d - 1, min_stmts=1)
+            l, r = (small, other) if self.chance(0.5) else (other, small)
         if op == "*" and not c.neg_const_mul:
             # avoid the literal-negative-multiplier rewrite (listed known finding of C03)
             if isinstance(l, Lit) and l.v < -1 and -l.v < ty.bits:
@@ -573,7 +586,13 @@ class Gen:
             if is_arr(cur):
                 if cur.n == 0:
                     break
-                accs.append(("idx", self.index_expr(cur.n, d)))
+                idx = self.index_expr(cur.n, d)
+                muts = [v for v in self.vars_of(lambda t, m: m and isinstance(t, TInt)) if v[0] != n]
+                if muts and self.chance(0.15):
+                    # index expression with an effect: `a[{ counter += 1; i }] op= v` must run it once
+                    cn, ct, _ = self.pick(muts)
+                    idx = Block([Assign(cn, ct, [], Lit(ct, 1), "+")], idx)
+                accs.append(("idx", idx))
                 cur = cur.elem
             elif isinstance(cur, TTup):
                 if not cur.elems:
